@@ -2,12 +2,12 @@
 from ..runner import Job
 from ..symx import sym_eq_seq, sym_and, sym_or, sym_not, T
 from .. import world as W
-from .common import Stack, sym_payload, log_digest, same_pgn, PROTOCOL_PF
+from .common import Stack, sym_payload, log_digest, same_pgn, PROTOCOL_PF, PROTOCOL_PF_FD
 
 A, B, C = 0x10, 0x20, 0x30
 
 
-def _pgn_inputs(ex, tag, pdu2):
+def _pgn_inputs(ex, tag, pdu2, dll='j1939-21'):
     dp = ex.fresh_int(tag + 'dp', 0, 1)
     prio = ex.fresh_int(tag + 'prio', 0, 7)
     if pdu2:
@@ -15,29 +15,30 @@ def _pgn_inputs(ex, tag, pdu2):
         ps = ex.fresh_int(tag + 'ge', 0, 255)
     else:
         pf = ex.fresh_int(tag + 'pf', 0, 239)
-        for p in PROTOCOL_PF:
+        for p in (PROTOCOL_PF if dll == 'j1939-21' else PROTOCOL_PF_FD):
             ex.assume(pf != p)
         ps = None
     return dp, pf, ps, prio
 
 
 class Msg:
-    def __init__(self, ex, tag, src, dst, L, kind):
+    def __init__(self, ex, tag, src, dst, L, kind, dll='j1939-21'):
         """kind: 'p2p' (PDU1 to dst), 'bam255' (PDU1 to global), 'pdu2'"""
         self.src, self.dst, self.L, self.kind = src, dst, L, kind
         self.pdu2 = kind == 'pdu2'
-        self.dp, self.pf, self.ps, self.prio = _pgn_inputs(ex, tag, self.pdu2)
+        self.dll = dll
+        self.dp, self.pf, self.ps, self.prio = _pgn_inputs(ex, tag, self.pdu2, dll)
         if not self.pdu2:
             self.ps = dst.addr if kind == 'p2p' else 255
         self.payload = sym_payload(ex, tag + 'b', L)
         self.broadcast = kind != 'p2p'
-        self.connection = (kind == 'p2p' and L > 8)
+        self.connection = (kind == 'p2p' and L > (8 if dll == 'j1939-21' else 60))
 
     def send(self):
         return self.src.ca.send_pgn(self.dp, self.pf, self.ps, self.prio, list(self.payload))
 
 
-def check_listener(ex, who, rx, stacks_by_addr, msgs, tag):
+def check_listener(ex, who, rx, stacks_by_addr, msgs, tag, dll='j1939-21'):
     """rx: deliveries at one listener of stack `who` (CA listener or ECU-level listener)"""
     expected = {}   # sa -> [msgs that must arrive from sa]
     acks = {}       # sa -> number of tolerated EOM-ack reports from sa
@@ -67,7 +68,9 @@ def check_listener(ex, who, rx, stacks_by_addr, msgs, tag):
                 ex.claim(tag + '.pgn', same_pgn(d['pgn'], hit.dp, hit.pf, hit.ps, hit.pdu2))
                 ex.claim(tag + '.payload', sym_eq_seq(d['data'], hit.payload))
                 continue
-            if nack > 0 and len(d['data']) == 8 and bool(d['data'][0] == 19):
+            is_ack = (len(d['data']) == 8 and bool(d['data'][0] == 19)) if dll == 'j1939-21' else \
+                (len(d['data']) == 12 and bool((d['data'][0] & 0xF) == 3))
+            if nack > 0 and is_ack:
                 nack -= 1      # the end-of-message acknowledgement reported to the originator
                 continue
             ex.claim(tag + '.no_other_delivery', False, {'listener': who.name, 'sa': sa, 'len': len(d['data'])})
@@ -84,41 +87,43 @@ def check_listener(ex, who, rx, stacks_by_addr, msgs, tag):
     return ok_all
 
 
-def h_xfer(ex, L, kind='p2p', shape='single', L2=0, kind2='p2p', reent=None, windows='sym', bystander=True):
+def h_xfer(ex, L, kind='p2p', shape='single', L2=0, kind2='p2p', reent=None, windows='sym', bystander=True, dll='j1939-21'):
     w = W.World(ex, mode='interleave')
+    fd = dll != 'j1939-21'
+    seg = 60 if fd else 7
     if windows == 'sym':
         wa = ex.fresh_int('win_a', 1, 255)
         wb = ex.fresh_int('win_b', 1, 255)
     else:
         wa, wb = windows
-    npk = (L + 6) // 7 + (L2 + 6) // 7
+    npk = (L + seg - 1) // seg + (L2 + seg - 1) // seg
     if reent == 'all':
         w.reentrant = 'all'
     elif reent == 'one':
         w.reentrant = ex.fresh_int('reentrant_frame', 0, 2 * npk + 6)
-    sa = Stack(w, 'A', A, max_cmdt_packets=wa)
-    sb = Stack(w, 'B', B, max_cmdt_packets=wb)
+    sa = Stack(w, 'A', A, dll=dll, max_cmdt_packets=wa)
+    sb = Stack(w, 'B', B, dll=dll, max_cmdt_packets=wb)
     stacks = [sa, sb]
     if bystander:
-        sc = Stack(w, 'C', C, ecu_listener=True, max_cmdt_packets=1)
+        sc = Stack(w, 'C', C, dll=dll, ecu_listener=True, max_cmdt_packets=1)
         stacks.append(sc)
     by_addr = {s.addr: s for s in stacks}
     w.run(until=T('1/100'))
-    msgs = [Msg(ex, 'm1', sa, sb, L, kind)]
+    msgs = [Msg(ex, 'm1', sa, sb, L, kind, dll)]
     if shape == 'twoway':
-        msgs.append(Msg(ex, 'm2', sb, sa, L2, kind2))
+        msgs.append(Msg(ex, 'm2', sb, sa, L2, kind2, dll))
     elif shape == 'fanout':
-        msgs.append(Msg(ex, 'm2', sa, sb, L2, kind2))   # kind2 must be a broadcast kind
+        msgs.append(Msg(ex, 'm2', sa, sb, L2, kind2, dll))   # kind2 must be a broadcast kind
     for m in msgs:
         r = m.send()
         ex.claim('accepted', r is True)
     horizon = T(2) + T('3/50') * npk
     w.run(until=w.now + horizon)
     for s in stacks:
-        check_listener(ex, s, s.rx, by_addr, msgs, 'ca')
+        check_listener(ex, s, s.rx, by_addr, msgs, 'ca', dll)
     if bystander:
         # an unfiltered ECU-level listener receives the broadcasts only
-        check_listener(ex, sc, sc.rx_ecu, by_addr, [m for m in msgs if m.broadcast], 'ecu')
+        check_listener(ex, sc, sc.rx_ecu, by_addr, [m for m in msgs if m.broadcast], 'ecu', dll)
     ex.claim('job_threads_alive', all(s.alive() for s in stacks))
     ex.claim('no_notify_exception', all(not s.node.notify_errors for s in stacks))
     nframes = len(w.log)
@@ -133,7 +138,8 @@ def h_xfer(ex, L, kind='p2p', shape='single', L2=0, kind2='p2p', reent=None, win
     for i, m in enumerate(msgs):
         f = Msg.__new__(Msg)
         f.src, f.dst, f.kind, f.pdu2 = m.src, m.dst, m.kind, m.pdu2
-        f.L = 10 if m.L != 10 else 11
+        f.L = (10 if m.L != 10 else 11) if not fd else (70 if m.L != 70 else 71)
+        f.dll = dll
         f.dp, f.pf, f.ps, f.prio = m.dp, m.pf, m.ps, 6
         f.payload = [(37 * j + i + 1) % 256 for j in range(f.L)]
         f.broadcast, f.connection = m.broadcast, (m.kind == 'p2p')
@@ -141,7 +147,7 @@ def h_xfer(ex, L, kind='p2p', shape='single', L2=0, kind2='p2p', reent=None, win
         ex.claim('followup.accepted', f.send() is True)
     w.run(until=w.now + T(3))
     for s in stacks:
-        check_listener(ex, s, s.rx, by_addr, fmsgs, 'followup')
+        check_listener(ex, s, s.rx, by_addr, fmsgs, 'followup', dll)
     ex.claim('followup.job_threads_alive', all(s.alive() for s in stacks))
     ex.observe('bus2', log_digest(w)[nframes:])
     ex.witness()
